@@ -88,6 +88,7 @@ def run(ctx):
                             entry=owner.qualname, exit=rm.exit_kind(n)))
 
     rm.replay_idle_clause(ctx, res, 'C02', 'C02.g', 'every exit of play() resets counter / outputs / playback recording (ordinals restart at 1)')
+    rm.interception_flag_clause(ctx, res, 'C02', 'C02.h')
     # ---------------- C02.a operation
     d = doms['operation']
     fac, deco, cl = roles.closures['operation']
